@@ -29,32 +29,31 @@ MANIFEST = {
             "artefact is (A) an executable reference semantics of XPath 1.0 on YANG data trees written from the W3C "
             "recommendation (XPathSem.eval with spec_flags: 13 axes, node tests, predicates with position()/last(), filters, "
             "unions, operators, core function library, current()), carrying one switch per construct in which xpath.c still "
-            "departs from the recommendation (impl_flags = as coded, 10 switches), proved to have the set-theoretic properties "
+            "departs from the recommendation (impl_flags = as coded, 8 switches), proved to have the set-theoretic properties "
             "of the property text FOR EVERY SETTING OF THE SWITCHES, in particular as coded: C08_eval_nodeset_sorted_nodup / "
             "C08_eval_nodeset_nodup / C08_eval_nodeset_nodup_as_coded (every node-set value of every expression is strictly "
             "increasing in document order, hence duplicate free), C08_union_comm, C08_predicate_true_identity, "
             "C08_child_step_is_filter_of_children, C08_step_no_preds_is_union, C08_descendant_or_self_decomposes, "
             "C08_fastpath_equiv (l[k='v'] selects exactly the instances whose key child has string value v); and (B) the "
-            "conversion kernels modelled as coded (cast_string_to_number/strtold, lyxp_set_cast number->string, floorl/ceill, "
-            "string-length/substring on bytes) with impl = spec theorems (C08_floor_impl_eq_spec for all numbers, "
-            "C08_s2n_impl_eq_spec_plain, C08_n2s_impl_eq_spec_int, C08_string_length_ascii on the domains where the code follows "
-            "the recommendation) and refutation witnesses elsewhere; "
-            "the two conversion kernels of the code are tied to the recommendation kernel at 64 bits, an answer equal to the "
-            "as-coded kernel is the listed deviation. Tie to xpath.c: differential testing only - "
+            "conversion kernels modelled as coded (cast_string_to_number: Number syntax check + strtold, lyxp_set_cast number->string: "
+            "shortest decimal that strtold reads back, floorl/ceill, string-length/substring on bytes) with impl = spec theorems at "
+            "full strength where the code follows the recommendation (C08_s2n_impl_eq_spec for EVERY string and precision, "
+            "C08_n2s_impl_eq_spec for every long double, C08_floor_impl_eq_spec for all numbers) or on the domain where it does "
+            "(C08_string_length_ascii) with refutation witnesses elsewhere; "
+            "the two conversion kernels of the code are tied to the recommendation kernel at 64 bits. Tie to xpath.c: differential testing only - "
             "lyxp_eval()/lyd_eval_xpath4() on generated expressions x trees x context nodes must answer the reference result, or "
-            "the as-coded result, in which case the needed switches name a LISTED deviation (known_findings.d/xpath.json: 12 "
+            "the as-coded result, in which case the needed switches name a LISTED deviation (known_findings.d/xpath.json: 8 "
             "known, each with a replay on the real library; a switch whose replay answers the reference result is put back "
-            "for the run, so a repaired deviation needs no model change; 22 fixed in /repo 61e2388..7b6de94, whose witnesses "
+            "for the run, so a repaired deviation needs no model change; 26 fixed in /repo 61e2388..54bf5db, whose witnesses "
             "stay as regression cases); any other answer, crash or failed assertion is a violation. Oracles on the implementation "
             "itself: key predicates answered by the hash lookup select the same nodes as forced generic evaluation, on lists "
             "without and with the children hash table; no sanitizer report on generated expressions.",
     "note": "Not modelled: deref(), re-match(), derived-from(-or-self)(), enum-value(), bit-is-set(), lang(), id(), "
             "namespace-uri(), variables, metadata (attribute axis is empty in the model), opaque nodes, when/must integration, "
             "schema (atom) evaluation. Unprefixed names follow the JSON rule (module of the parent node). The key lookup of "
-            "the code ([key=value] answered by one hash lookup) is not modelled: it must agree with generic evaluation; its two "
-            "listed residual defects (value depends on the list instance; empty node-set value) are attributed by the shape of "
-            "the expression, only while their replays still reproduce. strtold() ERANGE is modelled only away from the limits "
-            "of the long double exponent range.",
+            "the code ([key=value] answered by one hash lookup) is not modelled: it must agree with generic evaluation (pair oracle with "
+            "literal, numeric, boolean and node-set values, also relative to the list instance and to its parent) and with "
+            "the reference semantics; no deviation of it is listed any more (repaired in /repo 434e77e, a599f2f, 97c7154).",
     "technique": "Coq proof over an executable specification + as-coded kernels, differential correspondence (extracted OCaml vs C) "
                  "with deviation attribution, implementation-level oracles",
 }
